@@ -132,13 +132,14 @@ type c20server struct {
 	logs   *lockedBuf
 	mails  *lockedBuf
 	smtp   *fakeSMTP
+	json   bool
 	order  []string // global order of storer operations by account (interleaving signature)
 	omu    sync.Mutex
 	jitter func()
 }
 
-func newC20Server(seed int64, useSMTP bool, jitterOn bool) (*c20server, error) {
-	s := &c20server{logs: &lockedBuf{}, mails: &lockedBuf{}}
+func newC20Server(seed int64, useSMTP bool, jitterOn bool, jsonMode bool) (*c20server, error) {
+	s := &c20server{logs: &lockedBuf{}, mails: &lockedBuf{}, json: jsonMode}
 	var jmu sync.Mutex
 	jr := rand.New(rand.NewSource(seed))
 	s.jitter = func() {
@@ -191,7 +192,10 @@ func newC20Server(seed int64, useSMTP bool, jitterOn bool) (*c20server, error) {
 	logger := defaults.NewLogger(s.logs)
 	ab.Config.Core.Logger = logger
 	ab.Config.Core.ErrorHandler = defaults.NewErrorHandler(logger)
-	ab.Config.Core.BodyReader = c20BodyReader{defaults.NewHTTPBodyReader(false, false)}
+	ab.Config.Core.BodyReader = c20BodyReader{defaults.NewHTTPBodyReader(jsonMode, false)}
+	if jsonMode {
+		ab.Config.Modules.MailRouteMethod = "POST"
+	}
 	if useSMTP {
 		f, err := newFakeSMTP(s.jitter)
 		if err != nil {
@@ -257,11 +261,21 @@ type c20client struct {
 
 func (c *c20client) do(method, path string, form url.Values) (int, string, http.Header) {
 	var body io.Reader
-	if form != nil {
+	if form != nil && c.srv.json {
+		m := map[string]string{}
+		for k, v := range form {
+			m[k] = v[0]
+		}
+		b, _ := json.Marshal(m)
+		body = bytes.NewReader(b)
+	} else if form != nil {
 		body = strings.NewReader(form.Encode())
 	}
 	req, _ := http.NewRequest(method, c.base+path, body)
-	if form != nil {
+	switch {
+	case c.srv.json:
+		req.Header.Set("Content-Type", "application/json") // API clients send it on every request
+	case form != nil:
 		req.Header.Set("Content-Type", "application/x-www-form-urlencoded")
 	}
 	var ks []string
@@ -356,7 +370,11 @@ func (c *c20client) run() {
 	c.step("register", "POST", "/auth/register", url.Values{"email": {c.pid}, "password": {pw}, "confirm_password": {pw}})
 	c.step("login-unconfirmed", "POST", "/auth/login", url.Values{"email": {c.pid}, "password": {pw}})
 	tok := c.waitMail("confirm", 0)
-	c.step("confirm", "GET", "/auth/confirm?cnf="+url.QueryEscape(tok), nil)
+	if c.srv.json {
+		c.step("confirm", "POST", "/auth/confirm", url.Values{"cnf": {tok}})
+	} else {
+		c.step("confirm", "GET", "/auth/confirm?cnf="+url.QueryEscape(tok), nil)
+	}
 	c.step("login-wrong", "POST", "/auth/login", url.Values{"email": {c.pid}, "password": {"wrong"}})
 	c.step("login", "POST", "/auth/login", url.Values{"email": {c.pid}, "password": {pw}, "rm": {"true"}})
 	c.step("protected", "GET", "/protected", nil)
@@ -412,8 +430,8 @@ func canon(tr []string, pid string) []string {
 	return out
 }
 
-func c20RunClients(seed int64, n int, useSMTP, jitter bool) (*c20server, []*c20client, error) {
-	srv, err := newC20Server(seed, useSMTP, jitter)
+func c20RunClients(seed int64, n int, useSMTP, jitter, jsonMode bool) (*c20server, []*c20client, error) {
+	srv, err := newC20Server(seed, useSMTP, jitter, jsonMode)
 	if err != nil {
 		return nil, nil, err
 	}
@@ -433,13 +451,14 @@ func c20RunClients(seed int64, n int, useSMTP, jitter bool) (*c20server, []*c20c
 func c20Unit(c *RunCtx, unit int) {
 	r := Rng(c.Seed, "C20", unit)
 	useSMTP := unit%2 == 1
+	jsonMode := (unit/2)%2 == 1
 	n := []int{4, 16, 48}[unit%3]
 	if c.Tier == "quick" && n > 16 {
 		n = 16
 	}
 	c.Stats.Histories++
 	// solo reference: the same script alone against a fresh instance
-	solo, scs, err := c20RunClients(r.Int63(), 1, useSMTP, false)
+	solo, scs, err := c20RunClients(r.Int63(), 1, useSMTP, false, jsonMode)
 	if err != nil {
 		c.Stats.Inconclusive = append(c.Stats.Inconclusive, "server: "+err.Error())
 		return
@@ -454,7 +473,7 @@ func c20Unit(c *RunCtx, unit int) {
 		c.Stats.Inconclusive = append(c.Stats.Inconclusive, "solo script did not reach the states it is meant to reach: "+strings.Join(ref, " || "))
 		return
 	}
-	srv, cs, err := c20RunClients(r.Int63(), n, useSMTP, true)
+	srv, cs, err := c20RunClients(r.Int63(), n, useSMTP, true, jsonMode)
 	if err != nil {
 		c.Stats.Inconclusive = append(c.Stats.Inconclusive, "server: "+err.Error())
 		return
@@ -474,6 +493,7 @@ func c20Unit(c *RunCtx, unit int) {
 	nOps := len(srv.order)
 	srv.omu.Unlock()
 	c.Stats.Sig(fmt.Sprintf("interleaving/%x", h.Sum64()))
+	c.Stats.Count("units:" + map[bool]string{false: "form", true: "json"}[jsonMode] + "+" + map[bool]string{false: "logmailer", true: "smtpmailer"}[useSMTP])
 	c.Stats.Add("storer-ops", nOps)
 	c.Stats.Add("account-switches-in-global-order", switches)
 	c.Stats.Add("client-scripts", n)
@@ -573,7 +593,7 @@ func C20RaceReports(scratch string) (lib []string, harnessOnly int, total int) {
 func init() {
 	register(&Check{
 		ID: "C20", Level: "exploration",
-		Rule:  "-race build. One initialised instance behind a real net/http server on loopback, shipped defaults everywhere (router, body reader, responder, redirector, error handler, defaults.Logger on a locked writer, defaults.LogMailer on a locked writer in even units and defaults.SMTPMailer talking to an in-process fake SMTP server in odd units), MailNoGoroutine=false so the library's own mail goroutines run. 4/16/48 clients, each with its own account and cookie jar, run the script register → login-unconfirmed → confirm (token read from the mail) → wrong login → login(rm) → protected → otp add → logout → otp login → otp replay → logout → recover start → recover end (token from the mail) → old password → new password(rm) → remember re-auth → protected → logout → protected, concurrently, with seeded yields/µs-sleeps injected at every storer and session-store operation and at SMTP accept. Oracles: (1) zero race-detector reports with a frame in github.com/volatiletech/authboss/v3 (GORACE halt_on_error=0 log_path, blocks counted from the logs, deduplicated by the innermost library frame pair); a report without a library frame makes the run inconclusive; (2) every client's transcript (status, Location, content type, body, its server-side session, jar keys, its token-row count, its own storage row after every step; identifiers/tokens/hashes/timestamps canonicalised) equals the transcript of the same script run alone against a fresh instance; (3) the C11 handler programs run in 8 goroutines concurrently. distinct_nontrivial = distinct interleaving signatures (hash of the global order of storer operations by account).",
+		Rule:  "-race build. One initialised instance behind a real net/http server on loopback, shipped defaults everywhere (router, body reader, responder, redirector, error handler, defaults.Logger on a locked writer, defaults.LogMailer on a locked writer in even units and defaults.SMTPMailer talking to an in-process fake SMTP server in odd units), MailNoGoroutine=false so the library's own mail goroutines run. 4/16/48 clients, each with its own account and cookie jar, run the script register → login-unconfirmed → confirm (token read from the mail) → wrong login → login(rm) → protected → otp add → logout → otp login → otp replay → logout → recover start → recover end (token from the mail) → old password → new password(rm) → remember re-auth → protected → logout → protected, concurrently (form mode in half of the units, JSON/API mode — JSON bodies in, JSON 'redirects' out — in the other half), with seeded yields/µs-sleeps injected at every storer and session-store operation and at SMTP accept. Oracles: (1) zero race-detector reports with a frame in github.com/volatiletech/authboss/v3 (GORACE halt_on_error=0 log_path, blocks counted from the logs, deduplicated by the innermost library frame pair); a report without a library frame makes the run inconclusive; (2) every client's transcript (status, Location, content type, body, its server-side session, jar keys, its token-row count, its own storage row after every step; identifiers/tokens/hashes/timestamps canonicalised) equals the transcript of the same script run alone against a fresh instance; (3) the C11 handler programs run in 8 goroutines concurrently. distinct_nontrivial = distinct interleaving signatures (hash of the global order of storer operations by account).",
 		Units: func(t string) int { return tierN(t, 12, 120) },
 		Run:   c20Unit,
 		Floors: func(t string) map[string]int {
